@@ -137,6 +137,7 @@ func runUnits(o *Out, _ *rand.Rand, thorough bool) {
 	for ci := 0; ci < n; ci++ {
 		c := genUnitsCase(o.CaseRng(ci))
 		if replayFile != "" {
+			c = unitsCase{} // a replay is the whole case: nothing of the generated one may shine through fields the file omits
 			loadReplayInto(replayFile, &c)
 		}
 		if !o.BeginCase(ci, c) {
